@@ -1,57 +1,100 @@
 (** C09, test environment shared by the extracted model and
-    harness/sysop_drv.c: the memory behind the driver's get-page callback,
-    the driver's custom translation method, and the loop that finds the
-    nesting depth of a run (the least fuel that is enough).  This is a model
-    of the *driver's* callbacks, not of the library.  No proofs. *)
+    harness/sysop_drv.c: the driver's get-page callback (the memory image
+    behind it, the byte order it reports, the address spaces it serves by
+    re-entering the library), the driver's custom translation method, and the
+    loop that finds the nesting depth of a run (the least fuel that is
+    enough).  This is a model of the *driver's* callbacks, not of the library.
+    No proofs. *)
 From Coq Require Import NArith ZArith List Bool.
 From KdV Require Import Base.Wrap64 Map.MapModel Sys.ChainInterp.
+From KdV Require Xlat.Step Hist.ReadCache.
 Import ListNotations.
 Local Open Scope N_scope.
 
+(** the callback answers with 256-byte regions; memory is present in units
+    of 4096 bytes *)
+Definition REGION : N := 256.
 Definition PAGE : N := 4096.
-Definition ST_MISALIGNED : Z := 77%Z.
 
-(** [pages]: present pages (address space, page base); [words]: 64-bit words
-    (address space, 8-aligned address, value), zero elsewhere.  A page that is
-    not present makes the callback fail with [failst]; [failst = 0] means all
-    memory is present.  The library only issues aligned reads (addrxlat.h,
-    "the desired address is always aligned"); a misaligned one is reported
-    with a status no callback uses so that the orchestrator can drop the case
-    (it is outside the documented domain of the method parameters). *)
-Definition env_mem (pages : list (Z * N)) (words : list (Z * N * N)) (failst : Z)
-           (as_ : Z) (addr sz : N) : Z * N :=
-  if negb (N.land addr (sz - 1) =? 0) then (ST_MISALIGNED, 0)      (* sz is 4 or 8 *)
-  else
-    let pg := N.ldiff addr (PAGE - 1) in
-    if negb (failst =? 0)%Z && negb (existsb (fun p => (fst p =? as_)%Z && (snd p =? pg)) pages)
-    then (failst, 0)
-    else
-      let wa := N.ldiff addr 7 in
-      let wv := match find (fun w => (fst (fst w) =? as_)%Z && (snd (fst w) =? wa)) words with
+(** little-endian bytes of a 64-bit word *)
+Fixpoint le_bytes (n : nat) (v : N) : list N :=
+  match n with
+  | O => []
+  | S n' => N.land v 255 :: le_bytes n' (N.shiftr v 8)
+  end.
+
+(** the bytes of the region starting at [base] (32 words): every word is
+    stored in the byte order of its page *)
+Fixpoint region_words (words : list (N * N * N)) (be : bool) (a_as base : N) (n : nat) : list N :=
+  match n with
+  | O => []
+  | S n' =>
+      let wv := match find (fun w => (fst (fst w) =? a_as) && (snd (fst w) =? base)) words with
                 | Some w => snd w
                 | None => 0
                 end in
-      (ST_OK, if sz =? 8 then wv
-              else if N.land addr 7 =? 0 then N.land wv (N.ones 32) else N.shiftr wv 32).
+      (if be then rev (le_bytes 8 wv) else le_bytes 8 wv)
+      ++ region_words words be a_as (base + 8) n'
+  end.
+
+(** [pages]: present pages (address space, 4096-aligned base); [words]: 64-bit
+    words (address space, 8-aligned address, value), zero elsewhere; [bigs]:
+    pages whose buffers are reported as ADDRXLAT_BIG_ENDIAN.  A page that is
+    not present makes the callback fail with [failst]; [failst = 0] means all
+    memory is present. *)
+Definition env_big (bigs : list (N * N)) (a_as a : N) : bool :=
+  let pg := N.ldiff a (PAGE - 1) in
+  existsb (fun p => (fst p =? a_as) && (snd p =? pg)) bigs.
+
+Definition env_gp (pages : list (N * N)) (words : list (N * N * N)) (bigs : list (N * N))
+           (failst : Z) (a_as a : N) : Z + (N * N * list N) :=
+  let pg := N.ldiff a (PAGE - 1) in
+  if negb (failst =? 0)%Z && negb (existsb (fun p => (fst p =? a_as) && (snd p =? pg)) pages)
+  then inl failst
+  else
+    let base := N.ldiff a (REGION - 1) in
+    inr (base, REGION, region_words words (env_big bigs a_as a) a_as base 32).
+
+(** address spaces the callback serves by converting the requested address
+    to another space through the library first *)
+Definition env_backing (l : list (N * N)) (a_as : N) : option N :=
+  match find (fun p => fst p =? a_as) l with
+  | Some p => Some (snd p)
+  | None => None
+  end.
 
 (** the driver's custom first-step function: status [st]; on success the
     translation is complete ([remain = 0]) at [key - addr] in space [as_] *)
 Definition env_custom (st : Z) (as_ : Z) (key : N) : N -> Z * fulladdr :=
   fun addr => (st, FA (xsub key addr) as_).
 
-(** run with fuel 0, 1, 2, ... until the fuel is enough: the fuel found is the
-    nesting depth reached (one unit per pushed in-flight record) *)
-Fixpoint op_depth (todo fuel : nat) (lim : option nat) (osys : option sys) (rcaps : N)
-         (mem : Z -> N -> N -> Z * N) (opret : fulladdr -> Z) (caps : N) (fa : fulladdr)
-  : outcome * nat :=
-  match todo with
-  | O => (NoFuel, fuel)
-  | S t =>
-      match addrxlat_op lim osys rcaps mem fuel opret caps fa with
-      | NoFuel => op_depth t (S fuel) lim osys rcaps mem opret caps fa
-      | r => (r, fuel)
-      end
-  end.
+Section Run.
+  Variable lim : option nat.
+  Variable osys : option sys.
+  Variable rcaps : N.
+  Variable gp : N -> N -> Z + (N * N * list N).
+  Variable big : N -> N -> bool.
+  Variable backing : N -> option N.
+  Variable fmt_first : Step.aspace -> N -> Step.pform -> N -> Step.status * Step.step.
+  Variable fmt_next : Step.aspace -> N -> Step.pform -> Step.step -> N -> Step.status * Step.step.
+  Variable fmt_ptesz : Step.pform -> option N.
+  Variable wfuel : nat.
+
+  (** run with fuel 0, 1, 2, ... (each time from the same cache) until the
+      fuel is enough: the fuel found is the nesting depth reached (one unit
+      per pushed in-flight record) *)
+  Fixpoint op_depth (todo fuel : nat) (opret : fulladdr -> Z) (caps : N) (fa : fulladdr) (c : cache)
+    : outcome * nat * cache :=
+    match todo with
+    | O => (NoFuel, fuel, c)
+    | S t =>
+        match addrxlat_op_c lim osys rcaps gp big backing fmt_first fmt_next fmt_ptesz wfuel
+                            fuel opret caps fa c with
+        | (NoFuel, _) => op_depth t (S fuel) opret caps fa c
+        | (r, c') => (r, fuel, c')
+        end
+    end.
+End Run.
 
 (** build a map by a sequence of [addrxlat_map_set] calls (C10's model);
     [None] if a call fails or indexes outside the array *)
@@ -59,7 +102,7 @@ Fixpoint build_map (m : map) (sets : list (N * N * Z)) : option map :=
   match sets with
   | [] => Some m
   | (a, e, mm) :: tl =>
-      match map_set m a {| endoff := e; meth := mm |} true with
+      match map_set m a {| endoff := e; MapModel.meth := mm |} true with
       | Ok m' => build_map m' tl
       | _ => None
       end
